@@ -366,6 +366,10 @@ func TestC03(t *testing.T) {
 			Enum(h, "v3-assignment", ps.size(), ps.decode, nil, checkV3Scores)
 			h.R.AddExact(int64(ps.size()), int64(ps.size()))
 			h.R.Count("v"+spec.Versions[ver].Name+" exhaustive: every base combination x every pair of Modified metric values", int64(ps.size()))
+			ws := newWindowSpace(ver, 5)
+			Enum(h, "v3-assignment", ws.size(), func(i int) ScoreCase { return ScoreCase{Ver: ver, A: ws.assignment(i)} }, nil, checkV3Scores)
+			h.R.AddExact(int64(ws.size()), int64(ws.size()))
+			h.R.Count("v"+spec.Versions[ver].Name+" windows: every 5 consecutive metrics x all value combinations x 3 backgrounds", int64(ws.size()))
 			cs := newCornerSpace(ver)
 			Enum(h, "v3-assignment", cs.size(), cs.decode, nil, checkV3Scores)
 			h.R.AddExact(int64(cs.size()), int64(cs.size()))
@@ -677,6 +681,10 @@ func TestC04(t *testing.T) {
 		Enum(h, "v4-assignment", sp.size(), sp.decode, nil, checkV4Score)
 		h.R.AddExact(int64(sp.size()), int64(sp.size()))
 		h.R.Count("exhaustive: every base combination (104,976) x every single Modified metric value (and none)", int64(sp.size()))
+		ws := newWindowSpace(3, 6)
+		Enum(h, "v4-assignment", ws.size(), func(i int) ScoreCase { return ScoreCase{Ver: 3, A: ws.assignment(i)} }, nil, checkV4Score)
+		h.R.AddExact(int64(ws.size()), int64(ws.size()))
+		h.R.Count("windows: every 6 consecutive metrics x all value combinations x 3 backgrounds", int64(ws.size()))
 		cs := newCornerSpace(3)
 		Enum(h, "v4-assignment", cs.size(), cs.decode, nil, checkV4Score)
 		h.R.AddExact(int64(cs.size()), int64(cs.size()))
